@@ -29,6 +29,16 @@ class QuietError(Exception):
 EXC["AppTimeout"] = AppTimeout
 EXC["EmptyErrors"] = EmptyErrors
 EXC["QuietError"] = QuietError
+class Unprintable(Exception):
+    """An exception whose text cannot be produced (a __str__ that itself fails, as with half-initialised library errors)."""
+
+    def __str__(self):
+        raise RuntimeError("this exception has no printable form")
+
+    __repr__ = __str__
+
+
+EXC["Unprintable"] = Unprintable
 EXC["CancelledError"] = asyncio.CancelledError  # an actor that lets a helper's cancellation escape (helper.cancel(); await helper)
 
 
@@ -186,12 +196,12 @@ class World:
 
                             def cb(tag=cbtag):
                                 log.add(k="callback", id=id_, tag=tag)
-                                if tag.startswith("raise"):
+                                if tag.startswith("raise") or "-raise" in tag:
                                     raise RuntimeError("callback failed")
 
                             async def acb(tag=cbtag):
                                 log.add(k="callback", id=id_, tag=tag)
-                                if tag.startswith("raise"):
+                                if tag.startswith("raise") or "-raise" in tag:
                                     raise RuntimeError("callback failed")
 
                             m.add_callback(acb if cbtag.endswith("async") else cb)
